@@ -81,10 +81,14 @@ package pipe
 
 //@ func (*Pipe).closeWithError
 //@   props C21
-//@   requires p != nil && dst != nil && err != nil
-//@   frame * keeps *dst
-//@   note the mutex, the condition variable and closeDoneLocked are assumed not to write the error being recorded
-//@   modifies *
+//@   requires p != nil
+//@   frame * args
+//@   note the mutex, the condition variable and closeDoneLocked are assumed to write only what their receiver reaches, and not the error being recorded
+//@   frame Lock pure
+//@   frame Unlock pure
+//@   frame Signal pure
+//@   frame closeDoneLocked pure
+//@   modifies *p, *dst
 //@   ensures[the_first_error_for_a_destination_is_recorded] old(*dst) == nil ==> *dst == err
 //@   ensures[a_recorded_error_other_than_eof_is_kept] old(*dst) != nil && old(*dst) != io.EOF ==> *dst == old(*dst)
 //@   ensures[a_recorded_eof_is_replaced] old(*dst) == io.EOF ==> *dst == err
